@@ -81,7 +81,8 @@ CHECKS = {
         "nothing. C08_oneof_*: a oneOf decoder accepts only what one of its variants accepts and rejects unlisted discriminator values. "
         "Tie: documents generated FROM the schema by an independent generator and their single-fault mutants are decoded by the compiled "
         "package; value, re-encoding and error (which must name the property) are compared with the model, the re-encoding also with the "
-        "extracted keep, the generator's validity label with the Coq validator.",
+        "extracted keep, the generator's validity label with the Coq validator; the same documents and mutants are also posted to operations "
+        "whose request body is the type (in place and through components.requestBodies) and parsed by the generated server.",
    note="As C06. The theorems are stated for well-formed schemas of the dialect (wf_sch: allOf $ref members are objects without "
         "additionalProperties of their own — D28's shape is outside — and no property declared twice; dom_sch: Go's integer sizes, nullable "
         "only around non-nullable non-any schemas). keep is part of the specification (read it: 40 lines).",
@@ -235,7 +236,9 @@ CHECKS = {
         "every starting directory and every history of any length over a model of goag.go Generate's write/remove sequence. The model is tied "
         "to /repo on every run by running the real generator over all 584 histories of length<=3 (the property's stated universe, from an empty "
         "and from a user-populated directory) plus seeded longer histories, comparing every file's presence and sha256 with the model and with the "
-        "declarative single-run specification.",
+        "declarative single-run specification; the directory also holds user files (a test file, a hand-written file, a file of the same "
+        "package importing third-party packages under standard-library names, a file generated by another tool) and owned files that look up "
+        "to date (the new content plus a tail, its first half, one byte changed).",
    note="Trusted: Coq kernel; extraction (ExtrOcamlBasic) + driver.ml; Go harness. Modelled not verified: the order of os.Remove/OpenFile(O_TRUNC) "
         "calls in goag.go Generate; file contents opaque (sha256 of single-run outputs). Histories consist of successful invocations.",
    ref="DESIGN.md section 4 (C19)"),
@@ -247,9 +250,13 @@ CHECKS["C20"] = dict(
         "and reads of shared locations, every schedule, every thread that has finished: its private state equals the one of its solo run and "
         "the shared store is unchanged. Tie: the access inventory is recomputed from ~150 freshly generated packages on every run; "
         "16x60 (quick) / 64x200 (thorough) concurrent client calls per package and GOMAXPROCS in {1,4,16} through one API value and one "
-        "LocalClient, -race, each call checked against the digest of its own parameters.",
+        "LocalClient, -race, each call checked against the digest of its own parameters; raw response bodies are streamed by a reader "
+        "without WriteTo and verified byte by byte, JSON response bodies (arrays of arrays with nil inner slices) are answered from one value "
+        "per operation shared by all requests, requests that match no route run alongside, the middleware slice has spare capacity.",
    note="PARTIAL: Go memory model, net/http, encoding/json and user code are outside the model; the translator's choice of shared locations "
-        "and its syntactic read/write classification are trusted.",
+        "and its syntactic read/write classification are trusted. The classification counts as a write: assignment, ++/--, &x, a "
+        "pointer-receiver method called on a package-level variable, a reference-typed package-level variable handed to a callee that is not "
+        "known to only read it, append(x, ...) on shared x, and an element store reachable from a VALUE receiver (shared backing array).",
    ref="DESIGN.md section 4 (C20)")
 
 ALL = ["C%02d" % i for i in range(1, 21)]
